@@ -49,6 +49,7 @@ func main() {
 	o := sim.Options{Dir: *dir, Out: *out, Seed: seed, Thorough: *tier == "thorough", Replay: *replay, Workers: *workers, RunsMul: *mul, Only: *only}
 	os.Setenv("VERIF_C11_SEED", strconv.FormatUint(seed, 10))
 	os.Setenv("VERIF_C11_TIER", *tier)
+	props.Configure(id)
 	if id == "c11-child" {
 		var from, to uint64
 		fmt.Sscanf(os.Getenv("VERIF_C11_RANGE"), "%d-%d", &from, &to)
